@@ -283,6 +283,8 @@ def random_sim_case(r, sim, nmax=14, tmaxes=None):
                 case['R0_form'] = 'single'
         else:
             case['R0'] = []
+            if model == 'SIR' and r.random() < 0.2:
+                case['R0_explicit_empty'] = True       # initial_recovereds=[] passed explicitly
     if sim in WEIGHTED:
         m = simcase.make_markov_case(r, desc)
         case['graph'] = m['graph']
